@@ -1282,6 +1282,15 @@ def run_impl(case):
             stats["op." + k] = stats.get("op." + k, 0) + 1
             if st != "ok":
                 stats[st] = stats.get(st, 0) + 1
+            if k == "save" and st == "ok" and impl.is_zip:
+                oracle.same_mtime = set()       # the archive was rewritten: every entry has a new time
+            if k == "save" and st == "ok" and oracle.same_mtime:
+                # a save that changes the default layer moves glyph directories: the files keep bytes and mtimes
+                hv = lambda v: (v[0], repr(v[1]))
+                where = {(rel.split("/")[-1], hv(v)): rel for rel, v in impl.files.items()}
+                oracle.same_mtime = {rel if impl.files.get(rel) == files_before.get(rel) else
+                                     where.get((rel.split("/")[-1], hv(files_before[rel])), rel)
+                                     for rel in oracle.same_mtime if rel in files_before}
             if k[0] == "x":
                 if result == "ok":
                     x_pending = True
@@ -1964,7 +1973,7 @@ def gen_case(rng, tier):
 
 
 def generate(rng, tier):
-    n = 400 if tier == "quick" else 6000
+    n = 400 if tier == "quick" else 4000
     for c in witness_cases():
         yield c
     for _ in range(n):
